@@ -19,14 +19,19 @@ Theorem C03_subexpressions_typed :
 Proof. exact subexpr_typed. Qed.
 Print Assumptions C03_subexpressions_typed.
 
-(* arithmetic / ordering between different numeric types is never well typed *)
+(* arithmetic / ordering between different numeric types is never well typed; the only non-integer use of an arithmetic
+   operator is `+` on two strings (concatenation) *)
 Theorem C03_rule_operands :
   forall structs sigs G o a b t,
     (o = Add \/ o = Sub \/ o = Mul \/ o = Div \/ o = Mod -> check_expr structs sigs G (EBin o a b) = TOk t ->
-       exists x, check_expr structs sigs G a = TOk (TInt x) /\ check_expr structs sigs G b = TOk (TInt x) /\ t = TInt x) /\
+       (exists x, check_expr structs sigs G a = TOk (TInt x) /\ check_expr structs sigs G b = TOk (TInt x) /\ t = TInt x) \/
+       (o = Add /\ check_expr structs sigs G a = TOk TStr /\ check_expr structs sigs G b = TOk TStr /\ t = TStr)) /\
     (o = Lt \/ o = Le \/ o = Gt \/ o = Ge -> check_expr structs sigs G (EBin o a b) = TOk t ->
-       exists x, check_expr structs sigs G a = TOk (TInt x) /\ check_expr structs sigs G b = TOk (TInt x) /\ t = TBool).
-Proof. intros. split; [apply rule_arith_operands|apply rule_order_operands]. Qed.
+       exists x, check_expr structs sigs G a = TOk (TInt x) /\ check_expr structs sigs G b = TOk (TInt x) /\ t = TBool) /\
+    (o = Eq \/ o = Ne -> check_expr structs sigs G (EBin o a b) = TOk t ->
+       t = TBool /\ exists ta, check_expr structs sigs G a = TOk ta /\ check_expr structs sigs G b = TOk ta /\
+                               ((exists x, ta = TInt x) \/ ta = TBool \/ ta = TStr)).
+Proof. intros. split; [apply rule_arith_operands|split; [apply rule_order_operands|apply rule_equality_operands]]. Qed.
 Print Assumptions C03_rule_operands.
 
 (* conditions and operands of logical operators are bool *)
